@@ -9,12 +9,12 @@ From PNC Require Import Base.Util Model.Persist Proofs.PersistProofs.
 Local Open Scope Z_scope.
 
 (* Whole file, any number of dimensions / attributes / variables / cells: on the boolean domain
-   (every unlimited dimension is used by a variable; no attribute key is hidden by the filter; the
-   value written into masked cells is one the reader masks; no unmasked cell equals the fill value)
+   (every unlimited dimension is used by a variable; no attribute key is hidden by the filter; a
+   variable with masked cells has some fill value; no unmasked cell equals the fill value in effect)
    save followed by open returns the same dimensions (names, order, lengths, unlimited flag), the
    same attributes, the same variables (names, order, dtype, dimensions) and the same cells and mask. *)
 Theorem C07_save_open_partial : forall dflt f,
-  dom dflt f = true -> impl_save_open dflt f = spec_save_open f.
+  dom f = true -> impl_save_open dflt f = spec_save_open f.
 Proof. exact save_open_id. Qed.
 Print Assumptions C07_save_open_partial.
 
@@ -41,45 +41,39 @@ Theorem C07_attrs_kept : forall ign l,
 Proof. exact conv_attrs_id. Qed.
 Print Assumptions C07_attrs_kept.
 
-(* FULL statement "masked cells come back masked for any fill value" is false of the faithful model:
-   with missing_value = m and fill_value = f <> m on a non-scalar variable, EVERY masked cell comes
-   back unmasked with value f (all shapes, all cell lists) *)
-Theorem C07_fill_conflict_refuted : forall dflt v m f n ds,
-  p_mv v = Some m -> p_fv v = Some f -> f <> m -> p_dims v = n :: ds ->
-  forall cells, p_cells v = cells ->
-  v_cells (conv_var dflt v) = map (fun c => match c with Some x => if x =? m then None else Some x | None => Some f end) cells.
-Proof. exact fill_conflict_loses_mask. Qed.
-Print Assumptions C07_fill_conflict_refuted.
-
-Theorem C07_masks_refuted : exists f,
-  region_of 0 f = 1%nat /\ impl_save_open 0 f <> spec_save_open f.
-Proof. exists w_conflict. split; [reflexivity|]. vm_compute. discriminate. Qed.
-Print Assumptions C07_masks_refuted.
+(* "masked variables with any fill value": whatever missing_value, fill_value, the array's own fill and
+   _FillValue are, the value written into masked cells is the one declared as _FillValue on disk, so
+   the reader masks it (repaired addVariableData; before, missing_value <> fill_value lost every mask) *)
+Theorem C07_masked_any_fill : forall dflt v c,
+  chosen_fill v = Some c -> fill_consistent dflt v = true.
+Proof. exact fill_always_consistent. Qed.
+Print Assumptions C07_masked_any_fill.
 
 (* an unlimited dimension that no variable uses comes back with length 0 *)
 Theorem C07_unlimited_unused_refuted : exists f,
-  region_of 0 f = 2%nat /\ n_dims (impl_save_open 0 f) <> pf_dims f
+  region_of f = 1%nat /\ n_dims (impl_save_open 0 f) <> pf_dims f
   /\ map d_len (n_dims (impl_save_open 0 f)) = [3; 0].
 Proof. exists w_unlim. split; [reflexivity|]. vm_compute. split; [discriminate|reflexivity]. Qed.
 Print Assumptions C07_unlimited_unused_refuted.
 
-(* inherent to fill-value masking: an unmasked cell equal to the fill value comes back masked *)
-Theorem C07_value_equals_fill_refuted : exists f,
-  region_of 0 f = 3%nat /\ impl_save_open 0 f <> spec_save_open f.
-Proof. exists w_collide. split; [reflexivity|]. vm_compute. discriminate. Qed.
-Print Assumptions C07_value_equals_fill_refuted.
-
-(* ... also without any fill attribute: a cell equal to the netCDF default fill value of its type
+(* An unmasked cell equal to the variable's DECLARED fill value is outside the property's domain
+   (in_quant): by the netCDF convention that value means "missing".  Not so for a variable WITHOUT any
+   fill attribute: a cell equal to the netCDF default fill value of its type
    (255 in an unsigned byte variable) comes back masked *)
 Theorem C07_default_fill_refuted : exists f,
-  region_of 0 f = 3%nat /\ impl_save_open 0 f <> spec_save_open f
+  in_quant f = true /\ region_of f = 2%nat /\ impl_save_open 0 f <> spec_save_open f
   /\ map v_cells (n_vars (impl_save_open 0 f)) = [[Some 7; None]].
-Proof. exists w_default_fill. split; [reflexivity|]. vm_compute. split; [discriminate|reflexivity]. Qed.
+Proof. exists w_default_fill. split; [reflexivity|]. split; [reflexivity|]. vm_compute. split; [discriminate|reflexivity]. Qed.
 Print Assumptions C07_default_fill_refuted.
 
 (* non-vacuity: an unlimited dimension, boolean / string / integer attributes, a masked 2-D variable
    without any fill attribute and a scalar variable are inside the domain *)
 Example C07_domain_inhabited :
-  dom 0 w_good = true /\ has_masked (p_cells w_var_ok) = true
+  dom w_good = true /\ in_quant w_good = true /\ has_masked (p_cells w_var_ok) = true
   /\ n_gattrs (impl_save_open 0 w_good) <> pf_gattrs w_good.
 Proof. vm_compute. repeat split; try reflexivity; discriminate. Qed.
+
+(* the repaired case: missing_value = -999 and fill_value = -5 on a masked 2-D variable *)
+Example C07_fill_conflict_repaired :
+  dom w_conflict = true /\ impl_save_open 0 w_conflict = spec_save_open w_conflict.
+Proof. vm_compute. split; reflexivity. Qed.
